@@ -268,6 +268,22 @@ def run(prog: Program, chk: Check):
                     okb = base in [p for p in f.params() if p != "self"] or (isinstance(n.value, ast.Name))
                     P.decide(oks and okd and okb, fkey(f, f"{base}.hash"), where(f, n), "emits hash[:8] of the definition",
                              f"{modname.split('.')[-1]}.{f.name} emits {norm(par._parent) if oks else norm(par)} instead of <def>.hash[:8]")
+                    # ... under the definition's own name: when the line is built by a helper that is handed the name, the helper
+                    # must not rewrite it (a prefix-stripping `name.replace(f"{section}_", "")` files `hash_PING` under `PING`)
+                    helper_calls = [a for a in ancestors(n) if isinstance(a, ast.Call) and isinstance(a.func, ast.Attribute) and path_of(a.func.value) == "self" and a.func.attr in ci.methods]
+                    for hc in helper_calls:
+                        h = ci.methods[hc.func.attr]
+                        from .. import callgraph as _cg
+                        b = _cg.bind_args(h, hc, bound_method=True)
+                        for pn, av in b.items():
+                            if av is None or not any(isinstance(x, ast.Attribute) and x.attr == "name" and path_of(x.value) == base for x in ast.walk(av)):
+                                continue
+                            rew = [norm(c_)[:60] for c_ in calls_in(h.node) if isinstance(c_.func, ast.Attribute) and path_of(c_.func.value) == pn
+                                   and c_.func.attr in ("replace", "strip", "lstrip", "rstrip", "removeprefix", "removesuffix", "split", "partition", "rpartition", "lower", "upper", "title", "capitalize")]
+                            rew += [norm(x)[:60] for x in walk_local(h.node) if isinstance(x, ast.Subscript) and path_of(x.value) == pn]
+                            P.decide(not rew, fkey(f, f"{base}.hash:key"), where(f, hc), "the hash is filed under the definition's own name",
+                                     f"{modname.split('.')[-1]}.{f.name} hands the definition's name to {h.name}(), which rewrites it ({rew[0] if rew else ''}): "
+                                     f"the hash of a definition whose name contains the rewritten text is filed under another name (and may overwrite that definition's hash)")
     if nsites < 6:
         raise AnalysisError(f"anchor vanished: expected >= 6 hash emission sites in the back ends, found {nsites}")
     # each back end emits a hash for every message definition
